@@ -204,6 +204,13 @@ def std_iso(rng, dim, kind):
     elif kind == "two_refl":
         L[1][1] = F(-1)
         L[2][2] = F(-1)
+    elif kind == "point_refl_neg":
+        L[0][0] = F(-1)
+    elif kind == "neg_refl":
+        L = [[-x for x in r] for r in L]
+        L[1][1] = F(1)
+    elif kind == "neg_id":
+        L = [[-x for x in r] for r in L]
     elif kind == "id":
         pass
     return L
@@ -212,7 +219,7 @@ def std_iso(rng, dim, kind):
 def gen_spectrum(rng, n):
     for _ in range(n):
         dim = rng.choice([2, 2, 3, 4])
-        kind = rng.choice(["refl", "refl", "refl", "rot", "lox", "par", "refl_lox", "two_refl", "id"])
+        kind = rng.choice(["refl", "refl", "refl", "rot", "lox", "par", "refl_lox", "two_refl", "id", "point_refl_neg", "neg_refl", "neg_id"])
         g = G.rat_iso(rng, dim)
         L = std_iso(rng, dim, kind)
         M = G.matmulF(G.matmulF(G.invF(g), L), g)
@@ -223,6 +230,10 @@ def run_spectrum(inp):
     M = G.fm(inp["M"])
     ev, evec = np.linalg.eig(M.T)
     out = {"ev_re": np.real(ev).tolist(), "ev_im": np.imag(ev).tolist()}
+    # Minkowski norm of the eigenvector from_reflection will pick (np.argmin of the real parts), after normalize
+    v = np.real(evec[:, int(np.argmin(np.real(ev)))])
+    nv = float(G.mink(v, v))
+    out["vnorm"] = 0.0 if abs(nv) < 1e-300 else nv / abs(nv)
     try:
         Hp = H.Hyperplane.from_reflection(H.Isometry(M.copy()))
         out["accepted"] = True
@@ -235,7 +246,7 @@ def run_spectrum(inp):
 def lean_spectrum(inp, obs):
     if "ev_re" not in obs:
         return []
-    return [{"op": "c15.refl_spectrum", "evals": [Q.qs(x) for x in obs["ev_re"]], "eps": EPS}]
+    return [{"op": "c15.refl_spectrum", "evals": [Q.qs(x) for x in obs["ev_re"]], "eps": EPS, "vnorm": Q.qs(obs["vnorm"])}]
 
 
 def judge_spectrum(inp, obs, lr):
@@ -394,7 +405,8 @@ def judge_o_reflect(inp, obs, lr):
 def gen_o_nonrefl(rng, n):
     for _ in range(n):
         dim = rng.choice([2, 2, 3, 4])
-        kind = rng.choice(["rot", "lox", "par", "refl_lox", "two_refl", "id", "refl_rot", "refl"])
+        kind = rng.choice(["rot", "lox", "par", "refl_lox", "two_refl", "id", "refl_rot", "refl", "refl",
+                           "point_refl_neg", "neg_refl", "neg_id", "half_turn"])
         if kind == "refl_rot" and dim < 3:
             kind = "rot"
         yield {"dim": dim, "kind": kind, "g": G.float_iso(rng, dim).tolist(), "a": rng.uniform(0.3, 2.8), "t": rng.uniform(0.3, 3.0) * rng.choice([-1, 1])}
@@ -420,6 +432,18 @@ def float_std(dim, kind, a, t):
         L[0, 0], L[0, 2], L[2, 0], L[2, 2] = math.cosh(t), math.sinh(t), math.sinh(t), math.cosh(t)
         L[1, 1] = -1
     elif kind == "two_refl":
+        L[1, 1] = -1
+        L[2, 2] = -1
+    elif kind == "point_refl_neg":
+        # x -> x - 2<x,p>/<p,p> p with p = e0 timelike: the negatively scaled representative of the point reflection
+        # about the origin (a half-turn when dim = 2).  An involution with spectrum (-1,1,..,1) and no wall.
+        L[0, 0] = -1
+    elif kind == "neg_refl":       # the other representative of a reflection: spectrum (1,-1,..,-1)
+        L = -L
+        L[1, 1] = 1
+    elif kind == "neg_id":
+        L = -L
+    elif kind == "half_turn":      # rotation by pi about a codimension-2 subspace
         L[1, 1] = -1
         L[2, 2] = -1
     return L
@@ -541,6 +565,124 @@ def judge_o_fixed(inp, obs, lr):
     return None
 
 
+# ---- composite (array-valued) isometries --------------------------------------------------------------------------
+def _conj(g, L):
+    return np.linalg.inv(g) @ L @ g
+
+
+def gen_o_batch(rng, n):
+    for _ in range(n):
+        dim = rng.choice([2, 2, 3, 4])
+        what = rng.choice(["reflections", "reflections", "fixed", "fixed", "mixed_reject"])
+        k = rng.choice([1, 2, 3, dim + 1, 5, 8])
+        units = []
+        for j in range(k):
+            # unconjugated standard elements, elements turned about the origin and arbitrary conjugates: eig orders
+            # the eigenvectors differently for these
+            gk = rng.choice(["id", "turn", "any"])
+            if gk == "id":
+                g = np.eye(dim + 1)
+            elif gk == "turn":
+                a = rng.uniform(0, 2 * math.pi)
+                g = np.eye(dim + 1)
+                g[1, 1], g[1, 2], g[2, 1], g[2, 2] = math.cos(a), math.sin(a), -math.sin(a), math.cos(a)
+            else:
+                g = G.float_iso(rng, dim)
+            if what == "reflections":
+                kind = "refl"
+            elif what == "mixed_reject":
+                kind = rng.choice(["refl", "refl", "rot", "lox", "id", "two_refl", "point_refl_neg"])
+            else:
+                kind = rng.choice(["lox", "lox", "lox", "rot", "par"] if dim == 2 else ["lox"])
+            units.append({"kind": kind, "g": g.tolist(), "a": rng.uniform(0.3, 2.8), "t": rng.uniform(0.3, 2.5) * rng.choice([-1, 1])})
+        if what == "mixed_reject" and all(u["kind"] == "refl" for u in units):
+            units[rng.randrange(k)]["kind"] = "rot"
+        yield {"dim": dim, "what": what, "units": units}
+
+
+def run_o_batch(inp):
+    dim = inp["dim"]
+    mats = np.array([_conj(np.array(u["g"]), float_std(dim, "rot" if u["kind"] == "rot" else u["kind"], u["a"], u["t"])) for u in inp["units"]])
+    iso = H.Isometry(mats.copy())
+    k = len(mats)
+    out = {"k": k}
+    if inp["what"] in ("reflections", "mixed_reject"):
+        try:
+            Hp = H.Hyperplane.from_reflection(iso)
+            out["accepted"] = True
+            nv = np.array(Hp.spacelike_vector, dtype=float)
+            out["shape"] = list(nv.shape)
+            if list(nv.shape) == [k, dim + 1]:
+                out["neg_eig"] = float(np.max(np.abs(np.einsum("ki,kij->kj", nv, mats) + nv)))
+                ib = np.array(Hp.ideal_basis, dtype=float)
+                Jm = G.J(dim)
+                out["ideal"] = float(max(np.abs(np.einsum("kai,ij,kaj->ka", ib, Jm, ib)).max(),
+                                         np.abs(np.einsum("kai,kij->kaj", ib, mats) - ib).max()))
+                out["refl_rt"] = float(np.abs(np.array(Hp.reflection_across().proj_data, dtype=float) - mats).max())
+            if dim == 2:
+                g = H.Geodesic.from_reflection(H.Isometry(mats.copy()))
+                e = np.array(g.endpoints, dtype=float)
+                out["geo_shape"] = list(e.shape)
+                if list(e.shape) == [k, 2, 3]:
+                    out["geo_fixed"] = float(np.abs(np.einsum("kai,kij->kaj", e, mats) - e).max())
+        except GeometryError:
+            out["accepted"] = False
+        return out
+    fp = np.array(iso.fixed_point().proj_data, dtype=float)
+    pair = np.array(iso.fixed_point_pair().proj_data, dtype=float)
+    out["fp_shape"], out["pair_shape"] = list(fp.shape), list(pair.shape)
+    res = []
+    if list(fp.shape) == [k, dim + 1] and list(pair.shape) == [k, 2, dim + 1]:
+        for j, u in enumerate(inp["units"]):
+            M, g = mats[j], np.array(u["g"])
+
+            def resid(v):
+                v = v / np.linalg.norm(v)
+                w = v @ M
+                return float(np.abs(np.outer(w, v) - np.outer(v, w)).max()), float(G.mink(v, v))
+            rec = {"j": j, "kind": u["kind"], "fp": resid(fp[j])}
+            if u["kind"] == "lox":
+                sgn = 1.0 if u["t"] > 0 else -1.0
+                att = np.array([1.0, sgn] + [0.0] * (dim - 1)) @ g
+                rep = np.array([1.0, -sgn] + [0.0] * (dim - 1)) @ g
+                rec["order"] = bool(G.proj_equal(pair[j, 0], att, 1e-6) and G.proj_equal(pair[j, 1], rep, 1e-6) and G.proj_equal(fp[j], att, 1e-6))
+            res.append(rec)
+    out["units"] = res
+    return out
+
+
+def judge_o_batch(inp, obs, lr):
+    dim, k = inp["dim"], len(inp["units"])
+    kinds = [u["kind"] for u in inp["units"]]
+    tags = {"what": inp["what"], "dim": dim, "k": k, "composite": True, "square": k == dim + 1}
+    if "exc" in obs:
+        return {"expected": "composite result or GeometryError", "observed": obs, "tags": dict(tags, exc=obs["exc"])}
+    if inp["what"] == "mixed_reject":
+        if obs["accepted"]:
+            return {"expected": "a batch containing a non-reflection is rejected", "observed": kinds, "tags": tags}
+        return None
+    if inp["what"] == "reflections":
+        if not obs["accepted"]:
+            return {"expected": "a batch of reflections is accepted", "observed": "GeometryError", "tags": tags}
+        if obs["shape"] != [k, dim + 1] or not (obs["neg_eig"] <= 1e-7 and obs["ideal"] <= 1e-6 and obs["refl_rt"] <= 1e-6):
+            return {"expected": "one hyperplane per reflection: normal a (-1)-eigenvector, ideal basis lightlike and fixed, reflection_across gives the reflection back",
+                    "observed": obs, "tags": dict(tags, check="from_reflection")}
+        if dim == 2 and (obs.get("geo_shape") != [k, 2, 3] or not obs["geo_fixed"] <= 1e-6):
+            return {"expected": "one geodesic per reflection, endpoints fixed", "observed": obs, "tags": dict(tags, check="geodesic")}
+        return None
+    if obs["fp_shape"] != [k, dim + 1] or obs["pair_shape"] != [k, 2, dim + 1]:
+        return {"expected": "one fixed point / pair per isometry", "observed": [obs["fp_shape"], obs["pair_shape"]], "tags": dict(tags, check="shape")}
+    for rec in obs["units"]:
+        cross, norm = rec["fp"]
+        if not (cross <= 1e-5 and norm <= 1e-6):
+            return {"expected": "every unit: reported point fixed by its own isometry, in the closed ball", "observed": rec, "tags": dict(tags, check="fixed", kind=rec["kind"])}
+        if rec["kind"] == "rot" and not norm < -1e-9:
+            return {"expected": "elliptic unit: interior point", "observed": rec, "tags": dict(tags, check="interior")}
+        if rec["kind"] == "lox" and not rec["order"]:
+            return {"expected": "loxodromic unit: its own two ideal endpoints, attracting first", "observed": rec, "tags": dict(tags, check="order")}
+    return None
+
+
 TRIANGLES = [(2, 3, 7), (2, 4, 5), (3, 3, 4), (2, 3, 8), (4, 4, 4), (2, 5, 5), (3, 4, 5), (2, 3, 12)]
 
 
@@ -567,6 +709,14 @@ def run_o_coxeter(inp):
     g = H.Geodesic.from_reflection(H.Isometry(M.copy()))
     e = np.array(g.endpoints, dtype=float)
     out["wall"] = float(np.abs(e @ M - e).max() / max(1.0, np.abs(e).max()))
+    # all generators taken together (a composite of exactly dim+1 reflections)
+    gens = rep.isometries(["a", "b", "c"])
+    Gm = np.array(gens.proj_data, dtype=float)
+    Hg = H.Hyperplane.from_reflection(gens)
+    nv = np.array(Hg.spacelike_vector, dtype=float)
+    out["gens_shape"] = list(nv.shape)
+    if list(nv.shape) == [3, 3]:
+        out["gens_rt"] = float(np.abs(np.array(Hg.reflection_across().proj_data, dtype=float) - Gm).max())
     return out
 
 
@@ -579,6 +729,8 @@ def judge_o_coxeter(inp, obs, lr):
         return {"expected": "involutive orientation-reversing isometry", "observed": obs, "tags": dict(tags, what="reflection")}
     if not (obs["rt"] <= 1e-6 * s and obs["wall"] <= 1e-6 * s):
         return {"expected": "reflection_across(from_reflection(R)) = R, wall fixed", "observed": obs, "tags": dict(tags, what="roundtrip")}
+    if obs["gens_shape"] != [3, 3] or not obs["gens_rt"] <= 1e-6:
+        return {"expected": "the three generators together: three hyperplanes, round trip", "observed": obs, "tags": dict(tags, what="generators together")}
     return None
 
 
@@ -603,6 +755,10 @@ CLAUSES = [
     Clause("fixed_oracle", "oracle", gen_o_fixed, run_o_fixed, judge_o_fixed, lean=lean_o_fixed, site="hyperbolic.Isometry.fixed_point",
            budget={"quick": 250, "thorough": 8000},
            what="conjugates of standard rotations / loxodromics / parabolics: fixed (residual evaluated exactly in Lean), closed ball, interior for elliptic, two ideal endpoints attracting first, axis"),
+    Clause("batch_oracle", "oracle", gen_o_batch, run_o_batch, judge_o_batch, site="hyperbolic.Isometry._fixpoint_data",
+           budget={"quick": 150, "thorough": 5000},
+           what="array-valued isometries (1-8 units incl. exactly dim+1; standard, turned and arbitrarily conjugated members, both signs of the translation): "
+                "from_reflection / Geodesic.from_reflection per unit, batches containing a non-reflection rejected, fixed_point / fixed_point_pair per unit"),
     Clause("coxeter_oracle", "oracle", gen_o_coxeter, run_o_coxeter, judge_o_coxeter, site="hyperbolic.Hyperplane.from_reflection",
            budget={"quick": 40, "thorough": 400}, what="reflections w a w^-1 of hyperbolic triangle-group representations: accepted, round trip, wall fixed"),
 ]
